@@ -89,14 +89,15 @@ func (f *Do) Call(s *slip.Scope, args slip.List, depth int) (result slip.Object)
 					if tr.Tag == nil {
 						return tr.Result
 					}
-					if s.Block {
-						return tr
-					}
+					return tr
 				case *GoTo:
-					for i++; i < len(args); i++ {
+					for i = 2; i < len(args); i++ {
 						if args[i] == tr.Tag {
 							break
 						}
+					}
+					if len(args) <= i { // not a tag of this body, let an outer tagbody have it
+						return tr
 					}
 				}
 				// Anything other than ReturnResult or GoTo just continues.
